@@ -7,6 +7,7 @@
 #include <type_traits>
 
 #include "detail/assert.hpp"
+#include "detail/verif_hooks.hpp"
 #include "default_allocator.hpp"
 #include "error.hpp"
 
@@ -79,9 +80,11 @@ public:
 
     temporary_stack* find_unused()
     {
+        FOONATHAN_MEMORY_VERIF_POINT(1, this); // list head load
         for (auto ptr = first.load(); ptr; ptr = ptr->next_)
         {
             auto value = false;
+            FOONATHAN_MEMORY_VERIF_POINT(2, ptr); // in_use_ CAS
             if (ptr->in_use_.compare_exchange_strong(value, true))
                 return static_cast<temporary_stack*>(ptr);
         }
@@ -94,6 +97,7 @@ public:
         if (auto ptr = find_unused())
         {
             FOONATHAN_MEMORY_ASSERT(ptr->in_use_);
+            FOONATHAN_MEMORY_VERIF_POINT(3, ptr); // reuse assignment
             ptr->stack_ = detail::temporary_stack_impl(size);
             return ptr;
         }
@@ -103,12 +107,15 @@ public:
     void clear(temporary_stack& stack)
     {
         // stack should be empty now, so shrink_to_fit() clears all memory
+        FOONATHAN_MEMORY_VERIF_POINT(4, &stack); // shrink
         stack.stack_.shrink_to_fit();
+        FOONATHAN_MEMORY_VERIF_POINT(5, &stack); // in_use_ store
         stack.in_use_ = false; // mark as free
     }
 
     void destroy()
     {
+        FOONATHAN_MEMORY_VERIF_POINT(12, this); // destruction of all stacks
         for (auto ptr = first.exchange(nullptr); ptr;)
         {
             auto stack = static_cast<temporary_stack*>(ptr);
@@ -135,6 +142,7 @@ namespace
     {
         ~thread_exit_detector_t() noexcept
         {
+            FOONATHAN_MEMORY_VERIF_POINT(11, temp_stack); // thread exit detector
             if (temp_stack)
                 // clear automatically on thread exit, as the initializer's destructor does
                 // note: if another's thread_local variable destructor is called after this one
@@ -148,7 +156,9 @@ namespace
 
 detail::temporary_stack_list_node::temporary_stack_list_node(int) noexcept : in_use_(true)
 {
+    FOONATHAN_MEMORY_VERIF_POINT(6, this); // list head load
     next_ = temporary_stack_list_obj.first.load();
+    FOONATHAN_MEMORY_VERIF_POINT(7, this); // list head CAS
     while (!temporary_stack_list_obj.first.compare_exchange_weak(next_, this))
         ;
     (void)&thread_exit_detector; // ODR-use it, so it will be created
@@ -167,6 +177,7 @@ detail::temporary_allocator_dtor_t::~temporary_allocator_dtor_t() noexcept
 
 temporary_stack_initializer::temporary_stack_initializer(std::size_t initial_size)
 {
+    FOONATHAN_MEMORY_VERIF_POINT(8, temp_stack); // thread-local pointer read
     if (!temp_stack)
         temp_stack = temporary_stack_list_obj.create(initial_size);
 }
@@ -175,12 +186,14 @@ temporary_stack_initializer::~temporary_stack_initializer() noexcept
 {
     // don't destroy, nifty counter does that
     // but can get rid of all the memory
+    FOONATHAN_MEMORY_VERIF_POINT(10, temp_stack); // initializer destruction
     if (temp_stack)
         temporary_stack_list_obj.clear(*temp_stack);
 }
 
 temporary_stack& foonathan::memory::get_temporary_stack(std::size_t initial_size)
 {
+    FOONATHAN_MEMORY_VERIF_POINT(9, temp_stack); // thread-local pointer read
     if (!temp_stack)
         temp_stack = temporary_stack_list_obj.create(initial_size);
     return *temp_stack;
